@@ -54,8 +54,9 @@ theorem alphabeta_succ_eq (g : Game P) (ex : Explore) (le : LeafEval) (rootPly :
 /-- `abEnter` under a sound table: either it answers at once (cancelled, draw, exact table hit below the
     root) — then the table is untouched and a live answer is the exact value with an empty PV — or it lets
     the search proceed from the ticked state, which is live, at a position that is not adjudicated drawn. -/
-theorem abEnter_tt {g : Game P} (ex : Explore) (le : LeafEval) {rootPly : Int} (hrf : RootFree g rootPly)
-    (depth : Nat) (p : P) (st : SState) (hs : Sound g ex le st.tt) :
+theorem abEnter_tt {g : Game P} (ex : Explore) (le : LeafEval) {rootPly : Int} {R U : Nat → P → Prop}
+    (hcl : Closed g ex R) (hRU : ∀ n q, R n q → U n q) (hrf : RootFreeOn g R rootPly)
+    (depth : Nat) (p : P) (hp : R depth p) (st : SState) (hs : SoundOn g ex le U st.tt) :
     (∀ r, abEnter g rootPly depth p st = .inl r →
       r.2.2 = tick st ∧ (Live r.2.2 → r.1 = V g ex le rootPly depth p ∧ r.2.1 = [])) ∧
     (∀ best st1, abEnter g rootPly depth p st = .inr (best, st1) →
@@ -100,9 +101,9 @@ theorem abEnter_tt {g : Game P} (ex : Explore) (le : LeafEval) {rootPly : Int} (
             simp only [Bool.and_eq_true, beq_iff_eq] at hhit
             obtain ⟨⟨_, hdep⟩, hbound⟩ := hhit
             obtain ⟨hmem, hhash⟩ := read_some hread
-            have := hs e hmem hbound p hhash.symm
+            have := hs e hmem hbound p (by rw [← hdep]; exact hRU _ _ hp) hhash.symm
             dsimp only
-            rw [this, V_eq_V' ex le hrf, hdep]
+            rw [this, V_eq_V'_on ex le hcl hrf depth p hp, hdep]
           · intro best st1 hr; cases hr
         · simp only [hhit, Bool.false_eq_true, if_false]
           refine ⟨?_, ?_⟩
@@ -129,23 +130,24 @@ theorem quietSearch_tt {g : Game P} (hev : EvalOk g) (le : LeafEval) (K : Nat) (
     have e : K - fuel + fuel = K := by omega
     have HQ := quiesce_recTT hev ex' (fun _ => True) (K - fuel) fuel (by omega)
     rw [e] at HQ
-    obtain ⟨_, _, q⟩ := HQ.node p a b st trivial (fun _ => ⟨ha, hb⟩)
+    obtain ⟨_, _, q⟩ := HQ.node p a b st trivial trivial (fun _ => ⟨ha, hb⟩)
     simp only [wrapQ] at q
     simp only [quietSearch, leafV]
     refine ⟨quiesce_same g ex' fuel p a b st, fun hl => ?_⟩
     obtain ⟨q1, q2, q3, _⟩ := q hl
     exact ⟨q1, q2, q3⟩
 
-theorem sound_of_tt_eq {g : Game P} {ex : Explore} {le : LeafEval} {t t' : TTState} (h : t' = t)
-    (hs : Sound g ex le t) : Sound g ex le t' := by rw [h]; exact hs
+theorem sound_of_tt_eq {g : Game P} {ex : Explore} {le : LeafEval} {U : Nat → P → Prop} {t t' : TTState}
+    (h : t' = t) (hs : SoundOn g ex le U t) : SoundOn g ex le U t' := by rw [h]; exact hs
 
 /-- Depth 0 after `abEnter`. -/
 theorem leafBody_tt {g : Game P} (hev : EvalOk g) (ex : Explore) (le : LeafEval) {rootPly : Int}
-    (hrf : RootFree g rootPly) (hh : HashOK g ex le) (K : Nat) (hK : leafGrade le ≤ K) (hK127 : K ≤ 127)
-    (p : P) (a b : Score) (st : SState) (hs : Sound g ex le st.tt) (ha : okN K a) (hb : okN K b)
+    {R U : Nat → P → Prop} (hcl : Closed g ex R) (hRU : ∀ n q, R n q → U n q)
+    (hrf : RootFreeOn g R rootPly) (hh : HashOKOn g ex le U) (K : Nat) (hK : leafGrade le ≤ K) (hK127 : K ≤ 127)
+    (p : P) (hp : R 0 p) (a b : Score) (st : SState) (hs : SoundOn g ex le U st.tt) (ha : okN K a) (hb : okN K b)
     (hdraw : (!(g.ply p == rootPly) && g.isDraw p) = false) :
     ∀ r, leafBody g le p a b st = r →
-      Mono st r.2.2 ∧ Sound g ex le r.2.2.tt ∧
+      Mono st r.2.2 ∧ SoundOn g ex le U r.2.2.tt ∧
       (Live r.2.2 → okN K r.1 ∧
         (r.1 = V g ex le rootPly 0 p ∨ rank a ≤ rank r.1) ∧
         (rank a < rank b → Clip (rank a) (rank b) (rank (V g ex le rootPly 0 p)) (rank r.1)) ∧
@@ -157,7 +159,7 @@ theorem leafBody_tt {g : Game P} (hev : EvalOk g) (ex : Explore) (le : LeafEval)
   have hV : V g ex le rootPly 0 p = leafV g le p := by
     rw [V]; simp only [hdraw, Bool.false_eq_true, if_false]
   rw [hV]
-  have hstt : Sound g ex le (tick qs.2).tt := sound_of_tt_eq (by rw [tick_tt, hsame.1]) hs
+  have hstt : SoundOn g ex le U (tick qs.2).tt := sound_of_tt_eq (by rw [tick_tt, hsame.1]) hs
   have hmono : Mono st (tick qs.2) := hsame.2.trans (mono_tick _)
   by_cases hc : cancelled qs.2 = true
   · simp only [hc, if_true] at hr
@@ -172,8 +174,8 @@ theorem leafBody_tt {g : Game P} (hev : EvalOk g) (ex : Explore) (le : LeafEval)
       subst hr
       refine ⟨⟨hmono.1, hmono.2⟩, ?_, fun _ => ⟨q1, q2, q3, pathOK_nil _ _ _ _ _ _ _⟩⟩
       dsimp only
-      apply write_sound hstt
-      intro q hq'
+      apply write_soundOn hstt
+      intro q hqU hq'
       simp only [Bool.and_eq_true] at hcond
       have h1 := (lt_iff_rank _ _ ha.1 q1.1).1 hcond.1
       have h2 := (lt_iff_rank _ _ q1.1 hb.1).1 hcond.2
@@ -186,23 +188,25 @@ theorem leafBody_tt {g : Game P} (hev : EvalOk g) (ex : Explore) (le : LeafEval)
           · have := c3 x2; omega
           · exact c1 ⟨by omega, by omega⟩
       have hu : u16 0 = 0 := by decide
-      rw [hu, hex, ← hV, V_eq_V' ex le hrf]
-      exact hh p q hq'.symm 0
+      rw [hu] at hqU
+      rw [hu, hex, ← hV, V_eq_V'_on ex le hcl hrf 0 p hp]
+      exact hh 0 p q (hRU _ _ hp) hqU hq'.symm
     · simp only [hcond, Bool.false_eq_true, if_false] at hr
       subst hr
       exact ⟨hmono, hstt, fun _ => ⟨q1, q2, q3, pathOK_nil _ _ _ _ _ _ _⟩⟩
 
 /-- Depth `d + 1` after `abEnter`, given the node contract one level down. -/
 theorem abBody_tt {g : Game P} (hev : EvalOk g) (ex : Explore) (le : LeafEval) {rootPly : Int}
-    (hrf : RootFree g rootPly) (hh : HashOK g ex le) (K : Nat) (hK : leafGrade le ≤ K) (d : Nat)
+    {R U : Nat → P → Prop} (hcl : Closed g ex R) (hRU : ∀ n q, R n q → U n q)
+    (hrf : RootFreeOn g R rootPly) (hh : HashOKOn g ex le U) (K : Nat) (hK : leafGrade le ≤ K) (d : Nat)
     (hKd : K + d + 1 ≤ 127)
-    (IH : RecTT (Sound g ex le) (K + d) (V g ex le rootPly d) (PathOK g ex le rootPly d)
+    (IH : RecTT (SoundOn g ex le U) (R d) (K + d) (V g ex le rootPly d) (PathOK g ex le rootPly d)
       (alphabeta g ex le rootPly d))
-    (p : P) (a b : Score) (best : Move) (st : SState) (hs : Sound g ex le st.tt)
+    (p : P) (hp : R (d + 1) p) (a b : Score) (best : Move) (st : SState) (hs : SoundOn g ex le U st.tt)
     (ha : okN (K + d + 1) a) (hb : okN (K + d + 1) b)
     (hdraw : (!(g.ply p == rootPly) && g.isDraw p) = false) :
     ∀ r, abBody g ex le rootPly d p a b best st = r →
-      Mono st r.2.2 ∧ Sound g ex le r.2.2.tt ∧
+      Mono st r.2.2 ∧ SoundOn g ex le U r.2.2.tt ∧
       (Live r.2.2 → okN (K + d + 1) r.1 ∧
         (r.1 = V g ex le rootPly (d + 1) p ∨ rank a ≤ rank r.1) ∧
         (rank a < rank b → Clip (rank a) (rank b) (rank (V g ex le rootPly (d + 1) p)) (rank r.1)) ∧
@@ -212,12 +216,14 @@ theorem abBody_tt {g : Game P} (hev : EvalOk g) (ex : Explore) (le : LeafEval) {
   simp only [abBody, poll_eq] at hr
   have hperm := ABHeap.heapOrder_perm (g.moves p) (firstPrio best ex.prio)
   obtain ⟨hm, hi, hpost⟩ := abLoop_tt (g := g) (ex := ex) (p := p) IH (by omega) (b := b)
-    (heapOrder (g.moves p) (firstPrio best ex.prio)) a [] false { st with nodes := st.nodes + 1 } hs
+    (heapOrder (g.moves p) (firstPrio best ex.prio))
+    (fun m hm c hpush hpk => hcl d p m c hp (hperm.mem_iff.1 hm) hpk hpush)
+    a [] false { st with nodes := st.nodes + 1 } hs
     (fun _ => ⟨ha, hb⟩) _ rfl
   generalize abLoop g ex (alphabeta g ex le rootPly d) p b (heapOrder (g.moves p) (firstPrio best ex.prio)) a []
     false { st with nodes := st.nodes + 1 } = res at hr hm hi hpost
   have hmono : Mono st (tick res.2.2.2.2) := Mono.trans (s2 := res.2.2.2.2) ⟨hm.1, hm.2⟩ (mono_tick _)
-  have hstt : Sound g ex le (tick res.2.2.2.2).tt := hi
+  have hstt : SoundOn g ex le U (tick res.2.2.2.2).tt := hi
   by_cases hc : cancelled res.2.2.2.2 = true
   · simp only [hc, if_true] at hr
     subst hr
@@ -269,8 +275,8 @@ theorem abBody_tt {g : Game P} (hev : EvalOk g) (ex : Explore) (le : LeafEval) {
         subst hr
         refine ⟨⟨hmono.1, hmono.2⟩, ?_, fun _ => ⟨h2, Or.inr h3, hclip, hpath, fun _ => hnil⟩⟩
         dsimp only
-        apply write_sound hstt
-        intro q hq'
+        apply write_soundOn hstt
+        intro q hqU hq'
         simp only [Bool.and_eq_true, Bool.not_eq_true'] at hcond
         obtain ⟨hw, hne⟩ := hcond
         -- alpha was raised and there was no cutoff: the value is exact
@@ -283,8 +289,9 @@ theorem abBody_tt {g : Game P} (hev : EvalOk g) (ex : Explore) (le : LeafEval) {
               omega
             · rw [heq] at e8; omega
         have hu : u16 ((d + 1 : Nat) : Int) = d + 1 := u16_nat _ (by omega)
-        rw [hu, hex, V_eq_V' ex le hrf]
-        exact hh p q hq'.symm (d + 1)
+        rw [hu] at hqU
+        rw [hu, hex, V_eq_V'_on ex le hcl hrf (d + 1) p hp]
+        exact hh (d + 1) p q (hRU _ _ hp) hqU hq'.symm
       · simp only [hcond, Bool.false_eq_true, if_false] at hr
         subst hr
         exact ⟨hmono, hstt, fun _ => ⟨h2, Or.inr h3, hclip, hpath, fun _ => hnil⟩⟩
@@ -310,17 +317,18 @@ theorem abEnter_root {g : Game P} {rootPly : Int} (depth : Nat) (p : P) (st : SS
 
 /-- Node contract of `alphabeta` with a sound table and cancellation, by induction on the depth. -/
 theorem alphabeta_recTT {g : Game P} (hev : EvalOk g) (ex : Explore) (le : LeafEval) {rootPly : Int}
-    (hrf : RootFree g rootPly) (hh : HashOK g ex le) (K : Nat) (hK : leafGrade le ≤ K) :
+    {R U : Nat → P → Prop} (hcl : Closed g ex R) (hRU : ∀ n q, R n q → U n q)
+    (hrf : RootFreeOn g R rootPly) (hh : HashOKOn g ex le U) (K : Nat) (hK : leafGrade le ≤ K) :
     ∀ d, K + d ≤ 127 →
-      RecTT (Sound g ex le) (K + d) (V g ex le rootPly d) (PathOK g ex le rootPly d)
+      RecTT (SoundOn g ex le U) (R d) (K + d) (V g ex le rootPly d) (PathOK g ex le rootPly d)
         (alphabeta g ex le rootPly d) := by
   intro d
   induction d with
   | zero =>
     intro hKd
     refine ⟨fun c => V_ok hev ex le rootPly K hK 0 c hKd, ?_⟩
-    intro p a b st hs hab
-    obtain ⟨hinl, hinr⟩ := abEnter_tt ex le hrf 0 p st hs
+    intro p a b st hp hs hab
+    obtain ⟨hinl, hinr⟩ := abEnter_tt ex le hcl hRU hrf 0 p hp st hs
     rw [alphabeta_zero_eq]
     cases h : abEnter g rootPly 0 p st with
     | inl r =>
@@ -336,14 +344,15 @@ theorem alphabeta_recTT {g : Game P} (hev : EvalOk g) (ex : Explore) (le : LeafE
       subst e1
       obtain ⟨ha, hb⟩ := hab ((mono_tick st).live hlive1)
       dsimp only
-      obtain ⟨h1, h2, h3⟩ := leafBody_tt hev ex le hrf hh K hK (by omega) p a b (tick st) hs ha hb hdraw _ rfl
+      obtain ⟨h1, h2, h3⟩ := leafBody_tt hev ex le hcl hRU hrf hh K hK (by omega) p hp a b (tick st) hs ha hb
+        hdraw _ rfl
       exact ⟨(mono_tick st).trans h1, h2, h3⟩
   | succ d ih =>
     intro hKd
     have IH := ih (by omega)
     refine ⟨fun c => V_ok hev ex le rootPly K hK (d + 1) c hKd, ?_⟩
-    intro p a b st hs hab
-    obtain ⟨hinl, hinr⟩ := abEnter_tt ex le hrf (d + 1) p st hs
+    intro p a b st hp hs hab
+    obtain ⟨hinl, hinr⟩ := abEnter_tt ex le hcl hRU hrf (d + 1) p hp st hs
     rw [alphabeta_succ_eq]
     cases h : abEnter g rootPly (d + 1) p st with
     | inl r =>
@@ -360,8 +369,8 @@ theorem alphabeta_recTT {g : Game P} (hev : EvalOk g) (ex : Explore) (le : LeafE
       subst e1
       obtain ⟨ha, hb⟩ := hab ((mono_tick st).live hlive1)
       dsimp only
-      obtain ⟨h1, h2, h3⟩ := abBody_tt hev ex le hrf hh K hK d (by omega) IH p a b best (tick st) hs ha hb
-        hdraw _ rfl
+      obtain ⟨h1, h2, h3⟩ := abBody_tt hev ex le hcl hRU hrf hh K hK d (by omega) IH p hp a b best (tick st) hs
+        ha hb hdraw _ rfl
       refine ⟨(mono_tick st).trans h1, h2, fun hl => ?_⟩
       obtain ⟨q1, q2, q3, q4, _⟩ := h3 hl
       exact ⟨q1, q2, q3, q4⟩
